@@ -662,7 +662,18 @@ func (o *orbitDB) DetermineAddress(ctx context.Context, name string, storeType s
 	}
 
 	// Create the database address
-	return address.Parse(path.Join("/orbitdb", manifestHash.String(), name))
+	dbAddress, err := address.Parse(path.Join("/orbitdb", manifestHash.String(), name))
+	if err != nil {
+		return nil, err
+	}
+
+	// path.Join cleans its result: a name with enough parent-directory segments
+	// ("../<cid>/name") would replace the manifest hash by whatever follows them
+	if !dbAddress.GetRoot().Equals(manifestHash) {
+		return nil, fmt.Errorf("given database name leads out of the database address")
+	}
+
+	return dbAddress, nil
 }
 
 func (o *orbitDB) loadCache(directory string, dbAddress address.Address) (datastore.Datastore, error) {
